@@ -108,7 +108,7 @@ def run(rep):
             "NextRequest"]
     base = dict(sc=sc, dk="AllDamage", amts="A27", amts1="A7", into="A3", gen="A27", maxops=3)
     plans = [("repaired design, damaged responses",
-              dict(base, sc="ScC13", maxops=4, _cov=True, _need=need) if quick else
+              dict(base, sc="ScC13", maxops=4, _workers=max(2, bc.JOBS // 2)) if quick else
               dict(base, sc="ScC13", maxops=6, after=2, amts="AFull", amts1="A1237", gen="A1237", _cov=True, _need=need), None)]
     for d in ("JustD11", "JustF1", "JustF2", "JustF3", "JustF4"):
         plans.append((f"deviation {d[4:]} exhibited", dict(base, sc="ScC13Dev" if quick else "ScC13", maxops=3, kd=d),
@@ -131,6 +131,8 @@ def run(rep):
         rep.stage1.append({"run": "emission " + sc, "distinct_states": r2.distinct, "states_generated": r2.generated,
                            "depth": r2.depth, "wall_s": round(r2.wall, 1), "behaviours_emitted": nlines,
                            "op_sequences": len(groups) - 1})
+        rep.extra["api_calls_in_emitted_sequences"] = bc.api_coverage(
+            groups, ["read", "readn", "read1n", "read1", "readinto", "stream", "chunked", "iter", "data"])
         variants = [{"scale": 1, "seg": None, "pseed": 1}] if quick else \
             [{"scale": 1, "seg": None, "pseed": 1}, {"scale": 1, "seg": 2, "pseed": 2, "ext": True, "byte": "Z"},
              {"scale": 700, "seg": 4096, "pseed": 3, "inner": "deflate"}]
